@@ -87,7 +87,12 @@ pub struct MDelta {
     pub limiting: Option<&'static str>,
     /// amount of an automatic adjustment row
     pub adj_amount: Option<Rat>,
+    /// window facts of a loss sale (exact)
+    pub win: Option<WinInfo>,
 }
+
+#[derive(Clone, Debug)]
+pub struct WinInfo { pub acquired: Rat, pub held: Rat, pub buyers_eop: Vec<(String, Rat)>, pub split_after_sale_in_window: bool, pub split_before_sale_in_window: bool }
 
 #[derive(Clone, Debug)]
 pub struct MErr { pub src: usize, pub cause: Cause, pub stop_before_src: usize }
@@ -99,13 +104,14 @@ pub struct MResult { pub rows: Vec<MDelta>, pub err: Option<MErr> }
 struct Ev { src: usize, row: MRow, af: String, reg: bool }
 
 /// Window information for a loss sale at position `i` of `evs`, given balances *after* the sale.
-struct Window { acquired: Rat, held: Rat, buyers: BTreeMap<String, bool>, eop: BTreeMap<String, Rat>, oversale_at: Option<usize> }
+struct Window { acquired: Rat, held: Rat, buyers: BTreeMap<String, bool>, eop: BTreeMap<String, Rat>, oversale_at: Option<usize>, split_fwd: bool, split_bwd: bool }
 
 fn window(evs: &[Ev], i: usize, bal_after_sale: &BTreeMap<String, Rat>) -> Window {
     let sd = evs[i].row.sd;
     let first = sd - Duration::days(30);
     let last = sd + Duration::days(30);
     let mut acquired = Rat::zero();
+    let (mut split_fwd, mut split_bwd) = (false, false);
     let mut buyers: BTreeMap<String, bool> = BTreeMap::new();
     // backwards: acquisitions restated in the units of the sale's split period
     let mut fac: BTreeMap<String, Rat> = BTreeMap::new();
@@ -115,7 +121,7 @@ fn window(evs: &[Ev], i: usize, bal_after_sale: &BTreeMap<String, Rat>) -> Windo
         let f = fac.get(&e.af).cloned().unwrap_or(Rat::one());
         match e.row.act {
             Act::Buy => { acquired = acquired.add(&e.row.shares.mul(&f)); buyers.insert(e.af.clone(), e.reg); }
-            Act::Split => { fac.insert(e.af.clone(), f.mul(&e.row.split.0).div(&e.row.split.1)); }
+            Act::Split => { split_bwd = true; fac.insert(e.af.clone(), f.mul(&e.row.split.0).div(&e.row.split.1)); }
             _ => {}
         }
     }
@@ -142,13 +148,13 @@ fn window(evs: &[Ev], i: usize, bal_after_sale: &BTreeMap<String, Rat>) -> Windo
                 if n.is_neg() { oversale_at = Some(j); break; }
                 eop.insert(e.af.clone(), n);
             }
-            Act::Split => { fac.insert(e.af.clone(), f.mul(&e.row.split.0).div(&e.row.split.1)); }
+            Act::Split => { split_fwd = true; fac.insert(e.af.clone(), f.mul(&e.row.split.0).div(&e.row.split.1)); }
             _ => {}
         }
     }
     let mut held = Rat::zero();
     for v in eop.values() { held = held.add(v); }
-    Window { acquired, held, buyers, eop, oversale_at }
+    Window { acquired, held, buyers, eop, oversale_at, split_fwd, split_bwd }
 }
 
 /// Run the model over the rows of ONE security (in input order). `opening` = (shares, total cost)
@@ -182,7 +188,7 @@ pub fn run_security(rows: &[MRow], opening: Option<(Rat, Rat)>) -> MResult {
         let b = bal.get(&e.af).cloned().unwrap_or(Rat::zero());
         let a = acb.get(&e.af).cloned().unwrap_or(Rat::zero());
         let fail = |cause: Cause, src: usize, out: Vec<MDelta>, stop: usize| MResult { rows: out, err: Some(MErr { src, cause, stop_before_src: stop }) };
-        let mut d = MDelta { src: Some(e.src), af: e.af.clone(), registered: e.reg, act: r.act, sd: r.sd, share_bal: b.clone(), all_bal: Rat::zero(), acb: None, gain: None, sfl: Rat::zero(), ratio: None, flagged: false, computed_sfl: Rat::zero(), raw_gain: None, limiting: None, adj_amount: None };
+        let mut d = MDelta { src: Some(e.src), af: e.af.clone(), registered: e.reg, act: r.act, sd: r.sd, share_bal: b.clone(), all_bal: Rat::zero(), acb: None, gain: None, sfl: Rat::zero(), ratio: None, flagged: false, computed_sfl: Rat::zero(), raw_gain: None, limiting: None, adj_amount: None, win: None };
         let mut injected: Vec<(String, Rat)> = vec![];
         match r.act {
             Act::Buy => {
@@ -203,6 +209,7 @@ pub fn run_security(rows: &[MRow], opening: Option<(Rat, Rat)>) -> MResult {
                         let w = window(&evs, i, &bal);
                         if let Some(j) = w.oversale_at { return fail(Cause::OverSaleSeenFromWindow { loss_sale_src: e.src }, evs[j].src, out, e.src); }
                         let mut computed = Rat::zero();
+                        d.win = Some(WinInfo { acquired: w.acquired.clone(), held: w.held.clone(), buyers_eop: w.buyers.keys().map(|b| (b.clone(), w.eop.get(b).cloned().unwrap_or(Rat::zero()))).collect(), split_after_sale_in_window: w.split_fwd, split_before_sale_in_window: w.split_bwd });
                         if w.acquired.is_pos() && w.held.is_pos() {
                             let m = r.shares.min(&w.acquired).min(&w.held);
                             d.limiting = Some(if m == r.shares { "sold" } else if m == w.acquired { "acquired" } else { "held" });
@@ -260,7 +267,7 @@ pub fn run_security(rows: &[MRow], opening: Option<(Rat, Rat)>) -> MResult {
             let a0 = acb.get(&bid).cloned().unwrap_or(Rat::zero());
             let a1 = a0.add(&amt);
             acb.insert(bid.clone(), a1.clone());
-            out.push(MDelta { src: None, af: bid.clone(), registered: false, act: Act::Sfla, sd: r.sd, share_bal: bal.get(&bid).cloned().unwrap_or(Rat::zero()), all_bal: sum(&bal), acb: Some(a1), gain: None, sfl: Rat::zero(), ratio: None, flagged: false, computed_sfl: Rat::zero(), raw_gain: None, limiting: None, adj_amount: Some(amt) });
+            out.push(MDelta { src: None, af: bid.clone(), registered: false, act: Act::Sfla, sd: r.sd, share_bal: bal.get(&bid).cloned().unwrap_or(Rat::zero()), all_bal: sum(&bal), acb: Some(a1), gain: None, sfl: Rat::zero(), ratio: None, flagged: false, computed_sfl: Rat::zero(), raw_gain: None, limiting: None, adj_amount: Some(amt), win: None });
         }
     }
     MResult { rows: out, err: None }
